@@ -218,6 +218,18 @@ type feedResult struct {
 	PendingBody int
 	AfterClose int
 	PeakCache int
+	CarryOver string // first time the parser's carry-over buffer exceeded ReadLimit + the read just fed
+}
+
+// carryOver checks the sharp form of "the bytes retained for an incomplete message never
+// exceed the configured read limit plus one read" on the parser's own buffer.
+func (res *feedResult) carryOver(p *nbhttp.Parser, readLimit, piece, idx int) {
+	if readLimit <= 0 || res.CarryOver != "" {
+		return
+	}
+	if n := len(parserCache(p)); n > readLimit+piece {
+		res.CarryOver = fmt.Sprintf("after read %d (%d bytes) returned without error the parser's carry-over buffer holds %d bytes; ReadLimit is %d", idx, piece, n, readLimit)
+	}
 }
 
 // feed drives a parser with the recording processor the way Engine.DataHandler does:
@@ -263,6 +275,9 @@ func feed(e *env, eng *nbhttp.Engine, isClient bool, pieces [][]byte) *feedResul
 			res.PeakCache = live
 		}
 		look("the parser's carry-over buffer", string(parserCache(p)))
+		if err == nil {
+			res.carryOver(p, eng.ReadLimit, len(piece), i)
+		}
 		if err != nil {
 			res.Err = err
 			res.ErrAt = i
